@@ -21,7 +21,7 @@ RULE = ("each case: SDMF/MDMF, k<=3, N<=5 on N..N+2 servers; every share number 
 LEVEL_TEXT = "Layout search over genuinely published versions with a file-derived reference model."
 ASSUMPTIONS = ["block corruption is only detectable with verify=True; without verify a block-corrupted share counts as a share of its version",
                "an unrecoverable competitor with the same sequence number as the best version is accepted either way (the statement speaks about picking between competing versions)"]
-REQUIRED_CLASSES = ["healthy", "unhealthy", "must-force-newer", "must-force-competitor", "repair-ok", "repair-refused", "duplicate-share", "verify", "unrecoverable", "forced-repair"]
+REQUIRED_CLASSES = ["check_and_repair", "healthy", "unhealthy", "must-force-newer", "must-force-competitor", "repair-ok", "repair-refused", "duplicate-share", "verify", "unrecoverable", "forced-repair"]
 BUDGET = {"quick": 900, "thorough": 7200}
 STATES = ["cur", "cur", "cur", "old", "comp", "newer", "corrupt", "missing"]
 
@@ -35,13 +35,17 @@ def plan(tier):
 def cases(draw):
     k = draw(st.integers(1, 3))
     n = draw(st.integers(k, 5))
-    servers = n + draw(st.integers(0, 2))
+    servers = n + draw(st.sampled_from([0, 1, 2, 2, 2, 9, 13]))       # (on the large grids a stray share can sit far beyond the first empty servers)
     style = draw(st.sampled_from(["mixed", "mixed", "mostly-cur", "all-cur"]))
     pool = {"mixed": STATES, "mostly-cur": ["cur"] * 6 + STATES, "all-cur": ["cur"]}[style]
     states = [draw(st.sampled_from(pool)) for _ in range(n)]
     dups = draw(st.lists(st.tuples(st.integers(0, n - 1), st.integers(0, servers - 1), st.sampled_from(["cur", "cur", "old", "comp", "newer"])).map(list), max_size=2))
     return {"hsalt": draw(st.integers(0, 15)), "threads": draw(st.sampled_from(["sync", "async"])), "fmt": draw(st.sampled_from(["sdmf", "mdmf"])), "k": k, "n": n, "servers": servers, "states": states, "dups": dups,
-            "verify": draw(st.booleans()), "force": draw(st.booleans()), "sched": draw(st.lists(st.integers(0, 9), max_size=30))}
+            "verify": draw(st.booleans()), "force": draw(st.booleans()), "via": draw(st.sampled_from(["check+repair", "check+repair", "check_and_repair"])), "sched": draw(st.lists(st.integers(0, 9), max_size=30))}
+
+
+class _Done(Exception):
+    pass
 
 
 def run_shard(spec, ctx):
@@ -170,6 +174,18 @@ def run_case(case, ctx):
         if not recoverable_exp:
             classes.add("unrecoverable")
         ctx.check(snap() == before, "check-modified-shares", "%s: check changed share files" % desc)
+        if case.get("via") == "check_and_repair":
+            # the combined operation judges the file in its own survey before deciding whether to repair: the same verdict is required of it
+            classes.add("check_and_repair")
+            rc2 = g.run(g.add_client().nodemaker.create_from_cap(cap).check_and_repair(Monitor(), verify=verify))
+            g.sched.settle()
+            if rc2[0] == "ok":
+                pre = rc2[1].get_pre_repair_results()
+                ctx.check(amb_health or pre.is_healthy() == healthy_exp, "wrong-health", "%s: check_and_repair's pre-repair verdict is healthy=%r, expected %r (repair attempted: %r)" % (
+                    desc, pre.is_healthy(), healthy_exp, rc2[1].get_repair_attempted()), reported=pre.is_healthy(), via="check_and_repair")
+            else:
+                classes.add("check_and_repair-error:" + (type(rc2[1]).__name__ if rc2[0] == "err" else rc2[0]))
+            raise _Done()
         # ---- repair
         allrec = sorted(v for v, shs in versions.items() if len(shs) >= k)
         if not allrec:
@@ -225,6 +241,8 @@ def run_case(case, ctx):
                 ctx.fail("hang", "%s: repair never completed" % desc)
             else:
                 classes.add("repair-unsuccessful")
+    except _Done:
+        pass
     finally:
         g.stop()
         mutfile.restore_segsize()
